@@ -1,5 +1,6 @@
 """JSON value / id strategies and type-aware JSON equality."""
 
+import copy
 import json
 import math
 from typing import Any
@@ -152,6 +153,29 @@ def jeq(a: Any, b: Any) -> bool:
         return a.keys() == b.keys() and all(jeq(v, b[k]) for k, v in a.items())
     # values outside JSON (what a custom decoder hands to methods, e.g. Decimal): same type and equal
     return type(a) is type(b) and bool(a == b)
+
+
+# Python values a method may return that are JSON-encodable without being JSON values themselves (json.dumps writes non-string keys
+# as strings and tuples as arrays).  A behaviour spec names one as {'$py': <name>}: (what the method returns, what arrives on the wire)
+PY_FORMS = {
+    'mixed-keys': ({1: 'one', 2: 'two', 'other': 'many'}, {'1': 'one', '2': 'two', 'other': 'many'}),
+    'odd-keys': ({True: 'yes', None: 'nothing', 1.5: 'f'}, {'true': 'yes', 'null': 'nothing', '1.5': 'f'}),
+    'tuple': ((1, 'a', (2, 3), {'k': (4,)}), [1, 'a', [2, 3], {'k': [4]}]),
+}
+
+
+def py_materialise(v: Any) -> Any:
+    """the python object a scripted method returns for a behaviour value"""
+    if isinstance(v, dict) and set(v) == {'$py'}:
+        return copy.deepcopy(PY_FORMS[v['$py']][0])
+    return copy.deepcopy(v)
+
+
+def py_wire(v: Any) -> Any:
+    """the JSON value that return value becomes"""
+    if isinstance(v, dict) and set(v) == {'$py'}:
+        return copy.deepcopy(PY_FORMS[v['$py']][1])
+    return copy.deepcopy(v)
 
 
 def jnorm(v: Any) -> Any:
